@@ -255,6 +255,21 @@ def spaces(tier, seed):
     sp.append(Space(bname("B1-ties-extra"), blk(lambda: G.gen_B_ties(True)), True,
                     btxt + "B1 plus one more event anywhere (other pitch / same pitch untied / rest, voice 1-2)"))
     sp.append(Space("B2-chord-ties", G.gen_B_chordties, True, "two simultaneous chains over a barline, equal and unequal chord members, second chain in voice 1 or 2"))
+    b5 = ("ties between differently spelled notes of one sounding pitch (a tie joins notes of one sounding pitch: G#4 tied to "
+          "Ab4 where the key changes, B#3 tied to C4): three 1/4 measures (grid of eighths); chains of contiguous notes "
+          "(durations 1-2 units, each inside a measure) of one sounding pitch, voices {1,2}^k, every non-empty subset of tie "
+          "links (as B1) x every assignment of the spellings {G#4, Ab4} / {B#3, C4, Dbb4} to the notes of the chain (one "
+          "spelling throughout = the class of B1, kept as control); ")
+    sp.append(Space("B5-enharmonic-ties-2", lambda: G.gen_B_enharmonic(2, True), True,
+                    b5 + "chains of 2 notes; alone / as a chord tied to a chord with a second chain of the same spans, voices "
+                    "and links a semitone lower (G4, B3) / higher (A4, Db4) that shares its letter with one of the spellings"))
+    B5 = 16
+    if q:
+        sp.append(Space("B5-enharmonic-ties-3-block", G.stride(lambda: G.gen_B_enharmonic(3, False), B5, seed % B5), True,
+                        "block %d of %d (index stride) of: " % (seed % B5, B5) + b5 + "chains of 3 notes, alone"))
+    else:
+        sp.append(Space("B5-enharmonic-ties-3", lambda: G.gen_B_enharmonic(3, True), True,
+                        b5 + "chains of 3 notes; alone / with the second chain of B5-enharmonic-ties-2"))
     sp.append(Space("B3-grace", lambda: G.gen_B_grace(False), True,
                     "cores of 1-2 notes (span x voice{1,2}), grace run of length 1-2, plain or slashed, before either note"))
     sp.append(Space(bname("B3-grace-double"), blk(lambda: G.gen_B_grace(True)), True, btxt + "cores of 2 notes, a grace run before both"))
